@@ -9,27 +9,28 @@ executable (truncated at degree 2 in x, 5 in y) and evaluated by the kernel on t
 `Permutation::exhaust` table and the generated `n_isomorphisms` tables of both decks. -/
 namespace RP.C06
 
-/-- truncated polynomial in x (degree ≤ 2) and y (degree ≤ 5): coefficient of `x^i y^j` at `6 i + j` -/
-def coeff (p : List Nat) (i j : Nat) : Nat := p.getD (i * 6 + j) 0
+/-- truncated polynomial in x (degree ≤ 2) and y (degree ≤ 5): three rows (powers of x) of six
+coefficients (powers of y) -/
+abbrev Poly := List (List Nat)
 
-def pone : List Nat := 1 :: List.replicate 17 0
+def pzeroRow : List Nat := List.replicate 6 0
+def pone : Poly := [[1, 0, 0, 0, 0, 0], pzeroRow, pzeroRow]
 
-/-- product, truncated -/
-def pmul (a b : List Nat) : List Nat :=
-  (List.range 18).map fun idx =>
-    let i := idx / 6
-    let j := idx % 6
-    (List.range (i + 1)).foldl (fun acc u =>
-      (List.range (j + 1)).foldl (fun acc v => acc + coeff a u v * coeff b (i - u) (j - v)) acc) 0
+def padd (a b : Poly) : Poly := List.zipWith (List.zipWith (· + ·)) a b
+/-- `x^l · p`, truncated -/
+def shiftX (l : Nat) (p : Poly) : Poly := (List.replicate l pzeroRow ++ p).take 3
+/-- `y^l · p`, truncated -/
+def shiftY (l : Nat) (p : Poly) : Poly := p.map fun row => (List.replicate l 0 ++ row).take 6
 
-def ppow (p : List Nat) : Nat → List Nat
-  | 0 => pone
-  | n+1 => pmul (ppow p n) p
+/-- `p · (1 + x^l + y^l)`, truncated (distributivity) -/
+def mulFactor (l : Nat) (p : Poly) : Poly := padd (padd p (shiftX l p)) (shiftY l p)
 
-/-- `1 + x^ℓ + y^ℓ`, truncated -/
-def factor (l : Nat) : List Nat :=
-  (List.range 18).map fun idx =>
-    (if idx = 0 then 1 else 0) + (if l ≤ 2 ∧ idx = l * 6 then 1 else 0) + (if l ≤ 5 ∧ idx = l then 1 else 0)
+/-- `p · (1 + x^l + y^l)^n` -/
+def mulFactorPow (l : Nat) : Nat → Poly → Poly
+  | 0, p => p
+  | n+1, p => mulFactorPow l n (mulFactor l p)
+
+def coeff (p : Poly) (i j : Nat) : Nat := (p.getD i []).getD j 0
 
 /-- `perm` applied `n` times (a permutation of the four suits is the list of its images) -/
 def iter (perm : List Nat) : Nat → Nat → Nat
@@ -45,14 +46,12 @@ def isMin (perm : List Nat) (s : Nat) : Bool := (List.range 4).all fun n => deci
 def cycleLengths (perm : List Nat) : List Nat := ((List.range 4).filter (isMin perm)).map (cycLen perm)
 
 /-- `Π_cycles (1 + x^ℓ + y^ℓ)^R` -/
-def fixedPoly (R : Nat) (perm : List Nat) : List Nat :=
-  (cycleLengths perm).foldl (fun acc l => pmul acc (ppow (factor l) R)) pone
-
-def padd (a b : List Nat) : List Nat := (List.range 18).map fun idx => a.getD idx 0 + b.getD idx 0
+def fixedPoly (R : Nat) (perm : List Nat) : Poly :=
+  (cycleLengths perm).foldl (fun acc l => mulFactorPow l R acc) pone
 
 /-- `Σ_π Π_cycles (1 + x^ℓ + y^ℓ)^R` over the generated `Permutation::exhaust` table -/
-def fixedTotal (R : Nat) : List Nat :=
-  RP.Gen.permExhaust.foldl (fun acc perm => padd acc (fixedPoly R perm)) (List.replicate 18 0)
+def fixedTotal (R : Nat) : Poly :=
+  RP.Gen.permExhaust.foldl (fun acc perm => padd acc (fixedPoly R perm)) [pzeroRow, pzeroRow, pzeroRow]
 
 /-- the coefficients of `x² y^k` for the board sizes `k` of the four streets -/
 def fixedSums (R : Nat) : List Nat := RP.Gen.nObserved.map (fun k => coeff (fixedTotal R) 2 k)
@@ -61,9 +60,12 @@ def fixedSums (R : Nat) : List Nat := RP.Gen.nObserved.map (fun k => coeff (fixe
 example : cycleLengths [1, 0, 3, 2] = [2, 2] ∧ cycleLengths [0, 1, 2, 3] = [1, 1, 1, 1] ∧
     cycleLengths [1, 2, 3, 0] = [4] ∧ cycleLengths [0, 2, 3, 1] = [1, 3] := by decide
 -- (1 + x + y)^2 = 1 + 2x + 2y + x² + 2xy + y²
-example : ppow (factor 1) 2 = [1, 2, 1, 0, 0, 0,  2, 2, 0, 0, 0, 0,  1, 0, 0, 0, 0, 0] := by decide +kernel
--- identity permutation, pre-flop: C(52, 2)
-example : coeff (fixedPoly 13 [0, 1, 2, 3]) 2 0 = 1326 := by decide +kernel
+example : mulFactorPow 1 2 pone = [[1, 2, 1, 0, 0, 0], [2, 2, 0, 0, 0, 0], [1, 0, 0, 0, 0, 0]] := by decide +kernel
+-- (1 + x² + y²)·(1 + x + y) = 1 + x + y + x² + y² + x²y + xy² + … (x³, y³ truncated only beyond the box)
+example : mulFactor 2 (mulFactor 1 pone) = [[1, 1, 1, 1, 0, 0], [1, 0, 1, 0, 0, 0], [1, 1, 0, 0, 0, 0]] := by decide +kernel
+-- identity permutation: C(52,2) pockets, C(52,2)·C(50,3) flop observations
+example : coeff (fixedPoly 13 [0, 1, 2, 3]) 2 0 = 1326 ∧ coeff (fixedPoly 13 [0, 1, 2, 3]) 2 3 = 25989600 := by
+  decide +kernel
 
 /-- the generated `Permutation::exhaust` table is the symmetric group on the four suits:
 24 pairwise different rearrangements of `[0, 1, 2, 3]` -/
@@ -71,33 +73,36 @@ theorem permExhaust_is_S4 :
     RP.Gen.permExhaust.length = 24 ∧ RP.Gen.permExhaust.Nodup ∧
     ∀ p ∈ RP.Gen.permExhaust, p.length = 4 ∧ ∀ s, s < 4 → s ∈ p := by decide +kernel
 
-theorem coeff_two (p : List Nat) (k : Nat) : coeff p 2 k = (p.drop 12).getD k 0 := by
-  unfold coeff
-  simp only [List.getD_eq_getElem?_getD, List.getElem?_drop]
-
 /-- the `x²` row of `Σ_π Π_cycles (1+x^ℓ+y^ℓ)^13` (board sizes 0..5), evaluated by the kernel -/
 theorem fixedTotal_row_std :
-    (fixedTotal 13).drop 12 = [4056, 121992, 2250456, 30883008, 335041200, 2955750096] := by decide +kernel
+    (fixedTotal 13).getD 2 [] = [4056, 121992, 2250456, 30883008, 335041200, 2955750096] := by
+  decide +kernel
 
 /-- the `x²` row for 9 ranks -/
 theorem fixedTotal_row_short :
-    (fixedTotal 9).drop 12 = [1944, 39096, 487512, 4480704, 32180544, 185369472] := by decide +kernel
+    (fixedTotal 9).getD 2 [] = [1944, 39096, 487512, 4480704, 32180544, 185369472] := by decide +kernel
 
 /-- **C06_burnside_arith** (standard deck, 13 ranks): the published class counts
 169 / 1,286,792 / 13,960,050 / 123,156,254 are exactly `(1/24)·Σ_π [x²y^k] Π_cycles (1+x^ℓ+y^ℓ)^13`
 for the board sizes `k` of the four streets; the sums are divisible by 24. -/
 theorem C06_burnside_arith_std :
     fixedSums 13 = RP.Gen.n_isomorphisms_Std.map (· * 24) := by
-  unfold fixedSums
-  simp only [coeff_two, fixedTotal_row_std]
+  unfold fixedSums coeff
+  rw [fixedTotal_row_std]
   decide
 
 /-- **C06_burnside_arith** (short deck, 9 ranks): 81 / 186,696 / 1,340,856 / 7,723,728 -/
 theorem C06_burnside_arith_short :
     fixedSums 9 = RP.Gen.n_isomorphisms_Short.map (· * 24) := by
-  unfold fixedSums
-  simp only [coeff_two, fixedTotal_row_short]
+  unfold fixedSums coeff
+  rw [fixedTotal_row_short]
   decide
+
+/-- **C06_burnside_arith**: both decks -/
+theorem C06_burnside_arith :
+    fixedSums 13 = RP.Gen.n_isomorphisms_Std.map (· * 24) ∧
+    fixedSums 9 = RP.Gen.n_isomorphisms_Short.map (· * 24) :=
+  ⟨C06_burnside_arith_std, C06_burnside_arith_short⟩
 
 /-- the values named in the property statement -/
 theorem C06_burnside_values :
